@@ -305,7 +305,10 @@ S = None  # the current scheduler
 # ---------------------------------------------------------------------------------------------------
 # signals
 SIGHUP, SIGINT, SIGKILL, SIGUSR1, SIGTERM = 1, 2, 9, 10, 15
-SIG_DFL, SIG_IGN = 'SIG_DFL', 'SIG_IGN'
+# the real constants: enum members that are not callable, SIG_DFL is falsy (0) and SIG_IGN truthy (1) — code that tests a saved
+# handler for truth, or calls it, behaves as it does outside the simulation
+import signal as _real_signal
+SIG_DFL, SIG_IGN = _real_signal.SIG_DFL, _real_signal.SIG_IGN
 
 
 def default_int_handler(sig, frame):
